@@ -15,6 +15,7 @@ Inductive code :=
 | Raise (label : string)
 | Mut | MutParam | Commit | SetPh | Ret
 | Call (f : string) (k : akind)
+| CallOnce (f : string) (k : akind)   (* every top-level loop of f runs exactly once in this call *)
 | Seq (l : list code)
 | If (a b : code)
 | Loop (b : code).
@@ -37,7 +38,7 @@ Fixpoint lookup_code (f : string) (env : list (string * code)) : option code :=
   | (g, c) :: r => if String.eqb f g then Some c else lookup_code f r
   end.
 
-Fixpoint analyse (fuel : nat) (env : list (string * code)) (pk : akind) (c : code) (s : option st) {struct fuel} : res :=
+Fixpoint analyse (fuel : nat) (env : list (string * code)) (pk : akind) (once : bool) (c : code) (s : option st) {struct fuel} : res :=
   match fuel with
   | O => {| fall := s; exits := None; viols := ["analysis out of fuel"] |}
   | S fuel' =>
@@ -56,24 +57,33 @@ Fixpoint analyse (fuel : nat) (env : list (string * code)) (pk : akind) (c : cod
           match lookup_code f env with
           | None => {| fall := s; exits := None; viols := ["call of an unknown method: " ++ f] |}
           | Some body =>
-              let r := analyse fuel' env (match k with Kparam => pk | _ => k end) body s in
+              let r := analyse fuel' env (match k with Kparam => pk | _ => k end) false body s in
+              {| fall := join (fall r) (exits r); exits := None; viols := viols r |}
+          end
+      | CallOnce f k =>
+          match lookup_code f env with
+          | None => {| fall := s; exits := None; viols := ["call of an unknown method: " ++ f] |}
+          | Some body =>
+              let r := analyse fuel' env (match k with Kparam => pk | _ => k end) true body s in
               {| fall := join (fall r) (exits r); exits := None; viols := viols r |}
           end
       | Seq l =>
           (fix go (l : list code) (s : option st) (ex : option st) (vs : list string) : res :=
              match l with
              | [] => {| fall := s; exits := ex; viols := vs |}
-             | x :: r => let rx := analyse fuel' env pk x s in
+             | x :: r => let rx := analyse fuel' env pk once x s in
                          go r (fall rx) (join ex (exits rx)) (vs ++ viols rx)%list
              end) l s None []
       | If a b =>
-          let ra := analyse fuel' env pk a s in
-          let rb := analyse fuel' env pk b s in
+          let ra := analyse fuel' env pk false a s in
+          let rb := analyse fuel' env pk false b s in
           {| fall := join (fall ra) (fall rb); exits := join (exits ra) (exits rb); viols := (viols ra ++ viols rb)%list |}
       | Loop b =>
-          let s1 := join s (fall (analyse fuel' env pk b s)) in
-          let s2 := join s1 (fall (analyse fuel' env pk b s1)) in
-          let r := analyse fuel' env pk b s2 in
+          if once then analyse fuel' env pk false b s      (* a top-level loop of a CallOnce callee: exactly one iteration *)
+          else
+          let s1 := join s (fall (analyse fuel' env pk false b s)) in
+          let s2 := join s1 (fall (analyse fuel' env pk false b s1)) in
+          let r := analyse fuel' env pk false b s2 in
           {| fall := join s2 (fall r); exits := exits r; viols := viols r |}
       end
     end
@@ -88,7 +98,7 @@ Fixpoint dedup (l : list string) : list string :=
 Definition late_raises_of (env : list (string * code)) (h : string) : list string :=
   match lookup_code h env with
   | None => ["handler not found: " ++ h]
-  | Some c => dedup (viols (analyse 400 env Knone c (Some false)))
+  | Some c => dedup (viols (analyse 400 env Knone false c (Some false)))
   end.
 
 Definition late_raises (env : list (string * code)) (handlers : list string) : list (string * list string) :=
@@ -99,6 +109,6 @@ Definition late_raises (env : list (string * code)) (handlers : list string) : l
 Definition ends_dirty_of (env : list (string * code)) (h : string) : bool :=
   match lookup_code h env with
   | None => true
-  | Some c => let r := analyse 400 env Knone c (Some false) in
+  | Some c => let r := analyse 400 env Knone false c (Some false) in
               match join (fall r) (exits r) with Some true => true | _ => false end
   end.
